@@ -41,10 +41,16 @@ var f64Re = regexp.MustCompile(`\(f64 "[^"]*"\)`)
 
 var simpleIdent = regexp.MustCompile(`^[A-Za-z_][A-Za-z0-9_]*$`)
 
-func contentTokens(text string) []string {
+type ctok struct {
+	text  string
+	punct bool
+	raw   string // the token as written (map keys are ordered by it)
+}
+
+func contentTokensRaw(text string) []ctok {
 	lexer := parser.NewCypherLexer(antlr.NewInputStream(text))
 	lexer.RemoveErrorListeners()
-	var out []string
+	var out []ctok
 	var raw []antlr.Token
 	for {
 		t := lexer.NextToken()
@@ -137,6 +143,7 @@ func contentTokens(text string) []string {
 			continue
 		}
 		if c07Punct[txt] {
+			out = append(out, ctok{txt, true, txt})
 			continue
 		}
 		name := ""
@@ -188,9 +195,105 @@ func contentTokens(text string) []string {
 				continue
 			}
 		}
-		out = append(out, txt)
+		out = append(out, ctok{txt, false, t.GetText()})
 	}
 	return out
+}
+
+// sortMapLiterals: the emitter writes map literals with their keys sorted; put every `{k: v, …}` of a token list into
+// that order (recursively), so that ORDER can be compared everywhere else.
+func sortMapLiterals(ts []ctok) []ctok {
+	var out []ctok
+	for i := 0; i < len(ts); i++ {
+		if !(ts[i].punct && ts[i].text == "{") {
+			out = append(out, ts[i])
+			continue
+		}
+		// matching brace
+		depth, j := 0, i
+		for ; j < len(ts); j++ {
+			if ts[j].punct && (ts[j].text == "{" || ts[j].text == "[" || ts[j].text == "(") {
+				depth++
+			} else if ts[j].punct && (ts[j].text == "}" || ts[j].text == "]" || ts[j].text == ")") {
+				depth--
+				if depth == 0 {
+					break
+				}
+			}
+		}
+		if j >= len(ts) {
+			out = append(out, ts[i:]...)
+			break
+		}
+		inner := sortMapLiterals(ts[i+1 : j])
+		// split at top-level commas
+		var entries [][]ctok
+		var cur []ctok
+		d := 0
+		for _, t := range inner {
+			if t.punct && (t.text == "{" || t.text == "[" || t.text == "(") {
+				d++
+			} else if t.punct && (t.text == "}" || t.text == "]" || t.text == ")") {
+				d--
+			}
+			if t.punct && t.text == "," && d == 0 {
+				entries = append(entries, cur)
+				cur = nil
+				continue
+			}
+			cur = append(cur, t)
+		}
+		if len(cur) > 0 {
+			entries = append(entries, cur)
+		}
+		isMap := len(entries) > 0
+		for _, e := range entries {
+			if len(e) < 2 || !(e[1].punct && e[1].text == ":") {
+				isMap = false
+			}
+		}
+		if isMap {
+			key := func(e []ctok) string {
+				k := e[0].raw
+				if len(k) >= 2 && k[0] == '`' && k[len(k)-1] == '`' {
+					k = strings.ReplaceAll(k[1:len(k)-1], "``", "`")
+				}
+				return k
+			}
+			sort.SliceStable(entries, func(a, b int) bool { return key(entries[a]) < key(entries[b]) })
+		}
+		out = append(out, ts[i])
+		for k, e := range entries {
+			if k > 0 {
+				out = append(out, ctok{",", true, ","})
+			}
+			out = append(out, e...)
+		}
+		out = append(out, ts[j])
+		i = j
+	}
+	return out
+}
+
+// contentTokens: the ordered sequence of content tokens (punctuation dropped after map literals were put in key order)
+func contentTokens(text string) []string {
+	var out []string
+	for _, t := range sortMapLiterals(contentTokensRaw(text)) {
+		if !t.punct {
+			out = append(out, t.text)
+		}
+	}
+	return out
+}
+
+// firstOrderDiff: first position where two token sequences with the same multiset differ
+func firstOrderDiff(a, b []string) (int, string, string) {
+	for i := 0; i < len(a) && i < len(b); i++ {
+		if a[i] != b[i] {
+			return i, a[i], b[i]
+		}
+	}
+	return -1, "", ""
 }
 
 func isAlpha(s string) bool {
@@ -390,10 +493,19 @@ func (r *c07Runner) Step(t []string, raw string) string {
 			default:
 				rt = "differ"
 			}
-			lost, gained = multisetDiff(contentTokens(strings.TrimSpace(q)), contentTokens(text))
+			inToks, outToks := contentTokens(strings.TrimSpace(q)), contentTokens(text)
+			lost, gained = multisetDiff(inToks, outToks)
 			if len(lost) == 0 && len(gained) == 0 {
-				tok = "same"
-				r.stats.Inc("tokens_same")
+				// same multiset: the ORDER must be the same too
+				if i, a, b := firstOrderDiff(inToks, outToks); i >= 0 {
+					tok = "reordered"
+					lost = []string{fmt.Sprintf("@%d:%s", i, a)}
+					gained = []string{fmt.Sprintf("@%d:%s", i, b)}
+					r.stats.Inc("tokens_reordered")
+				} else {
+					tok = "same"
+					r.stats.Inc("tokens_same")
+				}
 			} else {
 				tok = "differ"
 			}
@@ -893,6 +1005,13 @@ func (c07Suite) Gen(rng *Rng, tier string, w *bufio.Writer, stats *Stats) {
 		for _, m := range c07Mutations(rng, c.Query, per) {
 			emit("mut:"+c.Source, m)
 		}
+	}
+	nmp := 40
+	if thorough {
+		nmp = 600
+	}
+	for _, q := range multiPartShapes(rng, nmp) {
+		emit("multipart", q)
 	}
 	g, err := loadG4()
 	if err != nil {
